@@ -107,6 +107,7 @@ namespace sim
         bool park_threads_at_start = false;     // captured threads wait for the controller before running their body
         bool hold_spares_send = false;          // a held descriptor blocks sendfile() only (header goes out, file body stalls)
         std::set<int> blocked;                  // held descriptors that have answered would-block since they were held
+        std::map<int, int> fail_next_write;     // descriptor -> errno for its next send()/sendfile()
         // all of this is touched by one thread at a time (gate), so no locking
         void reset()
         {
@@ -263,6 +264,14 @@ static ssize_t sim_answer(int fd, size_t len, const std::function<ssize_t(size_t
         sim::TsanIgnore ign;
         sim::State& s = sim::S();
         ++s.send_calls;
+        auto fw = s.fail_next_write.find(fd);
+        if (fw != s.fail_next_write.end())
+        {
+            int e = fw->second;
+            s.fail_next_write.erase(fw);
+            errno = e;
+            return -1;
+        }
         sim::Answer a { sim::FULL, 0 };
         auto it   = s.plan.find(fd);
         bool held = s.held.count(fd) && s.held[fd];
@@ -432,6 +441,8 @@ int close(int fd)
         s.timers.erase(fd);
         s.held.erase(fd);
         s.plan.erase(fd);
+        s.fail_next_write.erase(fd);
+        s.blocked.erase(fd);
     }
     return fn(fd);
 }
@@ -554,6 +565,11 @@ namespace sim
             static auto wr = real<ssize_t (*)(int, const void*, size_t)>("write");
             wr(kv.first, &n, sizeof n);
         }
+    }
+    inline void fail_next_write(int fd, int err)
+    {
+        TsanIgnore ign;
+        S().fail_next_write[fd] = err;
     }
     inline void hold(int fd)
     {
